@@ -58,11 +58,39 @@ pub struct LoopExt {
     pub views: HashMap<String, View>,
     pub mut_closures: HashMap<String, syn::ExprClosure>,
     pub n_loops: usize,
+    // ---- flexwhile.rs (opt-in, off by default) ----
+    /// a plain local passed as an argument of a call of a translated pure function is not a whole-value use of a `&mut` variable
+    pub shared_call_args: bool,
+    /// `PLACE[0]` may be read / written in a function that returns `Option` (`fueled`): `none` = out of bounds
+    pub opt_index: bool,
+    /// `while c { body }` under fuel, `split_at_mut`, `push`, `enumerate().find(..)` with a stateful closure
+    pub whiles: bool,
+    /// the function has a `fuel : Nat` parameter
+    pub has_fuel: bool,
+    /// inside the `head :: tail` arm of an index statement: Rust place name ↦ (Lean name of the head, element type)
+    pub head_binds: Vec<(String, String, Ty)>,
+    pub n_whiles: usize,
+    /// the parameter that is the tree in a function translated WITHOUT interaction form: it is used only as the calc resolver
+    /// (`|val, basis| tree.calc(val, basis)`: dropped) and to read child styles (`tree.get_flexbox_child_style(n)` ↦ `styleOf n`)
+    pub calc_tree: Option<String>,
+    /// the style traits the function sees styles through have `CoreStyle` as a supertrait (checked against the trait declarations by
+    /// the module that sets this): the getters of `CoreStyle` are available through them
+    pub view_super_core: bool,
+    /// `index as u32` for a usize `index` is translated as `index` (exact below 2³²; stated in the generated doc comment)
+    pub index_as_u32: bool,
+    /// blockmod.rs (opt-in): `for` loops whose body performs interactions, `if` / `match` statements joined on the tuple of locals they assign
+    pub block: bool,
+    /// blockmod.rs: the next joinable statement is translated by stmt.rs (set while a join translates its own statement)
+    pub no_join: bool,
+    /// blockmod.rs: the final expression of the step function of the enclosing `for` (what `continue` jumps to)
+    pub loop_tail: Option<syn::Expr>,
+    /// blockmod.rs: the pure reads of the tree the function performs (`get_block_child_style` …): each becomes a function parameter
+    pub reads_used: Vec<String>,
 }
 
 pub const NUMX_MARK: &str = "«NUMX»";
 
-fn strip(e: &Expr) -> &Expr {
+pub(crate) fn strip(e: &Expr) -> &Expr {
     match e {
         Expr::Paren(p) => strip(&p.expr),
         Expr::Group(g) => strip(&g.expr),
@@ -72,7 +100,7 @@ fn strip(e: &Expr) -> &Expr {
     }
 }
 
-fn path_ident(e: &Expr) -> Option<String> {
+pub(crate) fn path_ident(e: &Expr) -> Option<String> {
     match strip(e) {
         Expr::Path(p) => p.path.get_ident().map(|i| i.to_string()),
         _ => None,
@@ -80,7 +108,7 @@ fn path_ident(e: &Expr) -> Option<String> {
 }
 
 /// the local an lvalue / iterator chain is rooted at
-fn root_of(e: &Expr) -> Option<String> {
+pub(crate) fn root_of(e: &Expr) -> Option<String> {
     match strip(e) {
         Expr::Path(p) => p.path.get_ident().map(|i| i.to_string()),
         Expr::Field(f) => root_of(&f.base),
@@ -91,7 +119,7 @@ fn root_of(e: &Expr) -> Option<String> {
 }
 
 /// `R.m1().m2(a)…`  →  (R, [(m1, []), (m2, [a]), …])
-fn chain(e: &Expr) -> (&Expr, Vec<(String, Vec<&Expr>)>) {
+pub(crate) fn chain(e: &Expr) -> (&Expr, Vec<(String, Vec<&Expr>)>) {
     let mut v = vec![];
     let mut cur = strip(e);
     while let Expr::MethodCall(m) = cur {
@@ -102,7 +130,7 @@ fn chain(e: &Expr) -> (&Expr, Vec<(String, Vec<&Expr>)>) {
     (cur, v)
 }
 
-fn pat_ident(p: &Pat) -> Option<String> {
+pub(crate) fn pat_ident(p: &Pat) -> Option<String> {
     match p {
         Pat::Ident(i) if i.subpat.is_none() => Some(i.ident.to_string()),
         Pat::Type(t) => pat_ident(&t.pat),
@@ -112,7 +140,7 @@ fn pat_ident(p: &Pat) -> Option<String> {
     }
 }
 
-fn pat_names(p: &Pat, out: &mut Vec<String>) {
+pub(crate) fn pat_names(p: &Pat, out: &mut Vec<String>) {
     match p {
         Pat::Ident(i) => out.push(i.ident.to_string()),
         Pat::Type(t) => pat_names(&t.pat, out),
@@ -184,7 +212,7 @@ fn is_mut_closure(c: &syn::ExprClosure) -> bool {
 }
 
 /// the iterable of a `for`: (place, may the loop variable be written through)
-fn for_iterable(e: &Expr) -> (&Expr, bool) {
+pub(crate) fn for_iterable(e: &Expr) -> (&Expr, bool) {
     match e {
         Expr::Paren(p) => for_iterable(&p.expr),
         Expr::Reference(r) => (strip(&r.expr), r.mutability.is_some()),
@@ -214,10 +242,18 @@ pub struct Scan {
     pub views: HashMap<String, String>,
     /// local closures that update their argument
     pub mut_closures: Vec<String>,
+    /// flexwhile.rs: plain locals passed to a call of one of these functions (translated free functions that update no argument:
+    /// their reference parameters are `&T`) are not whole-value uses; empty = the rule is off
+    pub shared_args: Vec<String>,
+    /// flexwhile.rs: the code indexes a slice (`x[i]`, not `x[..]`)
+    pub indexes: bool,
 }
 
 impl Scan {
     fn assign(&mut self, e: &Expr) {
+        if crate::flexwhile::has_index(e) {
+            self.indexes = true;
+        }
         match root_of(e) {
             Some(r) => {
                 let r = self.views.get(&r).cloned().unwrap_or(r);
@@ -376,7 +412,7 @@ impl Scan {
             }
             Expr::ForLoop(f) => {
                 let (place, mutable) = for_iterable(&f.expr);
-                let mut inner = Scan { views: self.views.clone(), ..Default::default() };
+                let mut inner = Scan { views: self.views.clone(), shared_args: self.shared_args.clone(), ..Default::default() };
                 for s in &f.body.stmts {
                     inner.visit_stmt(s);
                 }
@@ -399,6 +435,7 @@ impl Scan {
                 self.exits |= inner.exits;
                 self.mut_borrow |= inner.mut_borrow;
                 self.loops |= inner.loops;
+                self.indexes |= inner.indexes;
                 for u in inner.whole_uses {
                     if !self.whole_uses.contains(&u) {
                         self.whole_uses.push(u);
@@ -411,10 +448,18 @@ impl Scan {
                 }
                 self.visit_expr(&c.body);
             }
+            Expr::Index(ix) if !matches!(&*ix.index, Expr::Range(_)) => {
+                self.indexes = true;
+                if !matches!(strip(&ix.expr), Expr::Path(_)) {
+                    self.visit_expr(&ix.expr);
+                }
+                self.visit_expr(&ix.index);
+            }
             Expr::Call(c) => {
                 for a in &c.args {
                     match a {
                         Expr::Reference(r) if r.mutability.is_some() => self.assign(&r.expr),
+                        Expr::Path(p) if p.path.get_ident().is_some() && matches!(&*c.func, Expr::Path(fp) if fp.path.get_ident().map(|i| self.shared_args.contains(&i.to_string())).unwrap_or(false)) => {}
                         a => self.visit_expr(a),
                     }
                 }
@@ -448,7 +493,7 @@ impl Scan {
 
 /// the candidates that occur free in `l`, in order of first occurrence (atoms are scanned word by word; `Let` / `Fun` / `Match`
 /// patterns bind every word they contain)
-fn free_in(l: &L, bound: &mut Vec<String>, cands: &[String], out: &mut Vec<String>) {
+pub(crate) fn free_in(l: &L, bound: &mut Vec<String>, cands: &[String], out: &mut Vec<String>) {
     let text = |s: &str, bound: &Vec<String>, out: &mut Vec<String>| {
         for w in s.split(|c: char| !(c.is_alphanumeric() || c == '_' || c == '\'')) {
             if cands.iter().any(|c| c == w) && !bound.iter().any(|b| b == w) && !out.iter().any(|o| o == w) {
@@ -517,7 +562,7 @@ fn free_in(l: &L, bound: &mut Vec<String>, cands: &[String], out: &mut Vec<Strin
     }
 }
 
-fn lets(binds: Vec<(String, L)>, mut body: L) -> L {
+pub(crate) fn lets(binds: Vec<(String, L)>, mut body: L) -> L {
     for (p, v) in binds.into_iter().rev() {
         body = L::Let(p, Box::new(v), Box::new(body));
     }
@@ -526,15 +571,22 @@ fn lets(binds: Vec<(String, L)>, mut body: L) -> L {
 
 impl<'a> Ctx<'a> {
     // -------------------------------------------------------------------------------------------- helpers
-    fn scan_block(&self, stmts: &[Stmt]) -> Scan {
-        let mut s = Scan { views: self.ext.views.iter().filter_map(|(k, v)| root_of(&v.place).map(|r| (k.clone(), r))).collect(), ..Default::default() };
+    /// the translated free functions none of whose parameters is `&mut` (callable with a shared reborrow of a `&mut` variable)
+    fn shared_fns(&self) -> Vec<String> {
+        if !self.ext.shared_call_args {
+            return vec![];
+        }
+        self.w.fns.iter().filter(|((head, _), sigs)| head.is_empty() && sigs.iter().all(|s| !s.mut_first && !s.mut_self && !s.prog)).map(|((_, n), _)| n.clone()).collect()
+    }
+    pub(crate) fn scan_block(&self, stmts: &[Stmt]) -> Scan {
+        let mut s = Scan { views: self.ext.views.iter().filter_map(|(k, v)| root_of(&v.place).map(|r| (k.clone(), r))).collect(), shared_args: self.shared_fns(), ..Default::default() };
         for st in stmts {
             s.visit_stmt(st);
         }
         s
     }
     fn scan_expr(&self, e: &Expr) -> Scan {
-        let mut s = Scan { views: self.ext.views.iter().filter_map(|(k, v)| root_of(&v.place).map(|r| (k.clone(), r))).collect(), ..Default::default() };
+        let mut s = Scan { views: self.ext.views.iter().filter_map(|(k, v)| root_of(&v.place).map(|r| (k.clone(), r))).collect(), shared_args: self.shared_fns(), ..Default::default() };
         s.stmt_pos_expr(e);
         s
     }
@@ -731,6 +783,9 @@ impl<'a> Ctx<'a> {
         if !self.ext.enabled {
             return Ok(None);
         }
+        if let Some(r) = self.ext2_method(m, expect)? {
+            return Ok(Some(r));
+        }
         let name = m.method.to_string();
         let args: Vec<&Expr> = m.args.iter().collect();
         if let Some(v) = self.view_of(&m.receiver) {
@@ -810,6 +865,9 @@ impl<'a> Ctx<'a> {
     pub(crate) fn ext_local(&mut self, l: &syn::Local, rest: &[Stmt], value_tail: bool, conts: &[Frame]) -> R<Option<L>> {
         if !self.ext.enabled {
             return Ok(None);
+        }
+        if let Some(r) = self.ext2_local(l, rest, value_tail, conts)? {
+            return Ok(Some(r));
         }
         let init = match &l.init {
             Some(i) if i.diverge.is_none() => &i.expr,
@@ -1000,6 +1058,9 @@ impl<'a> Ctx<'a> {
         if !self.ext.enabled {
             return Ok(None);
         }
+        if let Some(l) = self.ext2_stmt(e, conts)? {
+            return Ok(Some(l));
+        }
         match e {
             Expr::ForLoop(f) => self.for_loop(f, conts).map(Some),
             Expr::Loop(l) => self.fuel_loop(l, conts).map(Some),
@@ -1013,7 +1074,7 @@ impl<'a> Ctx<'a> {
     /// `if c { A } else { B }` as an update of the one local both branches may write
     fn if_join(&mut self, i: &syn::ExprIf, conts: &[Frame]) -> R<Option<L>> {
         let sc = self.scan_expr(&Expr::If(i.clone()));
-        if sc.exits || sc.loops {
+        if sc.exits || sc.loops || (sc.indexes && self.ext.opt_index) {
             return Ok(None);
         }
         if sc.mut_borrow {
@@ -1100,7 +1161,7 @@ impl<'a> Ctx<'a> {
     }
 
     /// `for x in …` as `List.map` (the body updates `x`) or `List.foldl` (the body updates one outer local)
-    fn for_loop(&mut self, f: &syn::ExprForLoop, conts: &[Frame]) -> R<L> {
+    pub(crate) fn for_loop(&mut self, f: &syn::ExprForLoop, conts: &[Frame]) -> R<L> {
         let var = pat_ident(&f.pat).ok_or("`for` pattern")?;
         let (place, mutable) = for_iterable(&f.expr);
         let stmts = &f.body.stmts;
